@@ -394,28 +394,35 @@ impl RoundedRectangleContains {
             return false;
         }
 
+        // The quadrants of diagonally opposite corners can overlap, in which case a point must be
+        // inside both quadrants.
+
         if point.y < self.straight_rows_left.start
             && point.x < self.top_left.bounding_box().columns().end
+            && !self.top_left.contains(point)
         {
-            return self.top_left.contains(point);
+            return false;
         }
 
         if point.y < self.straight_rows_right.start
             && point.x >= self.top_right.bounding_box().columns().start
+            && !self.top_right.contains(point)
         {
-            return self.top_right.contains(point);
+            return false;
         }
 
         if point.y >= self.straight_rows_left.end
             && point.x < self.bottom_left.bounding_box().columns().end
+            && !self.bottom_left.contains(point)
         {
-            return self.bottom_left.contains(point);
+            return false;
         }
 
         if point.y >= self.straight_rows_right.end
             && point.x >= self.bottom_right.bounding_box().columns().start
+            && !self.bottom_right.contains(point)
         {
-            return self.bottom_right.contains(point);
+            return false;
         }
 
         true
